@@ -1,4 +1,5 @@
 import Zrnt.Beacon.Spec.Epoch
+import Zrnt.Beacon.Impl.Altair
 /-!
 # Code-shaped model `M` of the places where zrnt's epoch processing is shaped differently from the spec
 
@@ -201,12 +202,46 @@ def processEpochRegistryUpdates (cfg : Config) (deneb : Bool) (currentEpoch fina
 The verdict (reject / overflow) is the specification's; the values are computed by `M`. `flats` is the
 snapshot of the registry taken at the start of `ProcessEpoch`. -/
 
+/-- `epc.TotalActiveStake` / `TotalActiveStakeSqRoot` as `loadCurrentStake` computes them -/
+def epcTotalActiveStake (cfg : Config) (flats : List Validator) (currentEpoch : Nat) : Nat := totalActiveStake cfg flats currentEpoch
+
+def altairAttesterData (cfg : Config) (s : State) : AltairAttesterData :=
+  computeEpochAttesterDataAltair cfg s.validators s.previous_epoch_participation s.current_epoch_participation
+    (get_previous_epoch cfg s) (active_indices_of s.validators (get_previous_epoch cfg s))
+    (active_indices_of s.validators (get_current_epoch cfg s))
+
 def justificationM (cfg : Config) (s : State) : SM State := do
   match ← justification_inputs cfg s with
   | none => pure s
   | some i =>
+    -- altair+: the two target stakes come from `altair.ComputeEpochAttesterData`, the total from the epochs context
+    let (total, prevT, curT) :=
+      if s.fork = .phase0 then (i.total_active_balance, i.previous_epoch_target_balance, i.current_epoch_target_balance)
+      else
+        let d := altairAttesterData cfg s
+        (epcTotalActiveStake cfg s.validators (get_current_epoch cfg s), d.prevTargetStake, d.currTargetStake)
     pure (withFFG s (processEpochJustification (get_previous_epoch cfg s) (get_current_epoch cfg s) (ffgOf s)
-      i.total_active_balance i.previous_epoch_target_balance i.current_epoch_target_balance i.previous_root i.current_root))
+      total prevT curT i.previous_root i.current_root))
+
+/-- altair+ `ProcessInactivityUpdates` -/
+def inactivityM (cfg : Config) (s : State) : SM State := do
+  let s' ← process_inactivity_updates cfg s
+  if get_current_epoch cfg s = GENESIS_EPOCH then return s'
+  let d := altairAttesterData cfg s
+  let scores := processInactivityUpdates cfg s.validators s.previous_epoch_participation d.eligibleIndices
+    (← is_in_inactivity_leak cfg s) s.inactivity_scores
+  pure { s' with inactivity_scores := scores }
+
+/-- altair+ `ProcessEpochRewardsAndPenalties` -/
+def rewardsAltairM (cfg : Config) (s : State) : SM State := do
+  let s' ← process_rewards_and_penalties cfg s
+  if get_current_epoch cfg s = GENESIS_EPOCH then return s'
+  let d := altairAttesterData cfg s
+  let total := epcTotalActiveStake cfg s.validators (get_current_epoch cfg s)
+  let bals := processEpochRewardsAndPenaltiesAltair cfg s.validators s.previous_epoch_participation s.inactivity_scores
+    (active_indices_of s.validators (get_previous_epoch cfg s)) d.eligibleIndices total (integer_squareroot total)
+    (inactivity_penalty_quotient cfg s.fork) (← is_in_inactivity_leak cfg s) s.balances
+  pure { s' with balances := bals }
 
 def registryM (cfg : Config) (flats : List Validator) (s : State) : SM State := do
   let s' ← process_registry_updates cfg s
@@ -228,8 +263,8 @@ def effectiveBalanceM (cfg : Config) (flats : List Validator) (s : State) : SM S
 def processEpochM (cfg : Config) (agg : AggOracle) (s : State) : SM State := do
   let flats := s.validators
   let s ← justificationM cfg s
-  let s ← if s.fork = .phase0 then pure s else process_inactivity_updates cfg s
-  let s ← process_rewards_and_penalties cfg s
+  let s ← if s.fork = .phase0 then pure s else inactivityM cfg s
+  let s ← if s.fork = .phase0 then process_rewards_and_penalties cfg s else rewardsAltairM cfg s
   let s ← registryM cfg flats s
   let s ← slashingsM cfg flats s
   let s ← process_eth1_data_reset cfg s
